@@ -86,6 +86,46 @@ def judgeReads (cfg : Cfg) (ops : List (Nat × OpK)) (evs : List Obs) : Option S
       | _ => some "store/read/malformed-result"
     | _, _, _ => none
 
+/-! ### read-after-write, overlapping writes
+
+`readOk` lets a read return the value of any write that no completed write *entirely follows*; two
+writes that overlap are unordered for it.  The property's "that write's value or a later one" orders
+them: a write `w` that was issued after `w'` **and** completed after `w'` is the later one (the cache
+takes writes in issue order, the backing store in completion order, so only a write that is later in
+both respects is later in both places).  `readOkOrd` is `readOk` with `follows` replaced by
+`supersedes` (which `follows` implies): a read may return the value of a write that no write
+completed before the read was issued supersedes.  Judged for write-through stores. -/
+
+/-- `w` is the later write of the two: issued after `w'` and completed after `w'` -/
+def supersedes (w w' : WRec) : Bool :=
+  w'.s < w.s && (match w'.e, w.e with
+    | some e', some e => e' < e
+    | _, _ => false)
+
+def readOkOrd (ws : List WRec) (key : Key) (rs re : Nat) (v : Option Nat) : Bool :=
+  let mine := ws.filter (·.key == key)
+  let before := mine.filter fun w => match w.e with | some e => e < rs | none => false
+  let initialOk := v.isNone && before.isEmpty
+  initialOk || mine.any fun w' => w'.val == v && w'.s < re && !(before.any fun w => supersedes w w')
+
+def judgeReadsOrd (cfg : Cfg) (ops : List (Nat × OpK)) (evs : List Obs) : Option String :=
+  let ws := writesOf ops evs
+  let m := if cfg.wt then "wt" else "wb"
+  -- write-through only: in write-back mode a `put` completes without reaching the backing store, and
+  -- an eviction's synchronous write-back can be overtaken by a delete that was issued earlier and is
+  -- still in flight (fixes/C16-writeback-overtaken-by-delete.known.md); there only `readOk` is judged
+  if !cfg.wt then none else
+  ops.findSome? fun (i, op) =>
+    match op, firstIdx evs i, endIdx evs i with
+    | .get k, some rs, some re =>
+      match (evs.getD re ⟨0, [], [], [], none⟩).res with
+      | some (.val v) =>
+        if readOkOrd ws k rs re (some v) then none else some s!"store/read-after-write/superseded/{m}/value"
+      | some .none =>
+        if readOkOrd ws k rs re none then none else some s!"store/read-after-write/superseded/{m}/absent"
+      | _ => none
+    | _, _, _ => none
+
 def judgeObs (cfg : Cfg) (evs : List Obs) : Option String :=
   evs.findSome? fun o =>
     if cfg.cap < o.cached.length then some "store/size/exceeds-capacity"
@@ -141,6 +181,9 @@ def judgeStore (cfg : Cfg) (ops : List (Nat × OpK)) (evs : List Obs) (fin : Opt
   | none =>
     match (match fin with | some f => judgeFinal cfg ops evs f | none => none) with
     | some s => some s
-    | none => judgeReads cfg ops evs
+    | none =>
+      match judgeReads cfg ops evs with
+      | some s => some s
+      | none => judgeReadsOrd cfg ops evs
 
 end HappyModel.C16
